@@ -92,6 +92,14 @@ def run(ctx, rep: Report, deep: bool = False):
             disc = G.random_disc(rng)
         if disc is None:
             pass
+        elif i % 6 == 5:
+            # "exact end" (S82): the partition has exactly the sectors in use and its last sector is file data, so the last
+            # read of the export ends on the last byte of the image (a multiple of 2048: the raw-sector file ends there too)
+            nw = rng.choice([4026, 8122, 12218])  # 140 + 2 * nw = k * 8192: the file fills its last sector exactly
+            tail_secs = -(-(140 + 2 * nw) // 8192)
+            disc = G.Disc([G.Partition([G.Volume("TT", [G.SampleFile("HEAD", G.random_words(rng, 50)), G.SampleFile("TAIL", G.random_words(rng, nw))], dir_first=True)], sectors=3 + 1 + 1 + tail_secs)])
+            img, _ = G.serialize(disc, rng, shapes=("contiguous",))
+            rep.feat("exact_end_images")
         elif i % 3 == 2:
             # the last thing on the disc is sample data: directory first, files contiguous, largest file last
             w = G.random_words(rng, rng.choice([700, 4500, 9000]))
@@ -102,6 +110,8 @@ def run(ctx, rep: Report, deep: bool = False):
         if disc is None:
             if rng.random() < 0.5:
                 img += bytes(rng.randrange(256) for _ in range(rng.choice([1, 100, 2047])))
+        elif i % 6 == 5:
+            pass
         elif i % 3 == 1:
             img += bytes(rng.randrange(256) for _ in range(rng.choice([1, 100, 2047, 3000])))  # size not a multiple of 2048
             rep.feat("size_not_multiple_of_2048")
@@ -150,7 +160,7 @@ def run(ctx, rep: Report, deep: bool = False):
         rep.feat("detect_all_audio_cue")
     rep.families["container"] = {"cases": ncases, "disagreements": bad}
     rep.sample({"family": "container", "deliveries": ["raw", "2352", "mdx", "cue-raw", "cue-2352", "cue-mdx", "cue-2352+audio"]})
-    rep.required_features = ["delivery_raw", "delivery_2352", "delivery_mdx", "delivery_cue-raw", "delivery_cue-2352", "delivery_cue-mdx", "delivery_cue-2352+audio", "roland_images", "size_not_multiple_of_2048", "tight_tail_images"]
+    rep.required_features = ["delivery_raw", "delivery_2352", "delivery_mdx", "delivery_cue-raw", "delivery_cue-2352", "delivery_cue-mdx", "delivery_cue-2352+audio", "roland_images", "exact_end_images", "size_not_multiple_of_2048", "tight_tail_images"]
 
 
 def search(ctx, rep: Report):
